@@ -221,6 +221,20 @@ func unpackV8(data []byte, i *int8) error {
 	return nil
 }
 
+// roundToV16 rounds a scaled value to the nearest 16-bit signed integer, saturating at the bounds.
+func roundToV16(f float32) int16 {
+	switch {
+	case f >= 32767:
+		return 32767
+	case f <= -32768:
+		return -32768
+	case f < 0:
+		return int16(f - 0.5)
+	}
+
+	return int16(f + 0.5)
+}
+
 func packV16(i int16) []byte {
 	b := make([]byte, 3)
 
